@@ -294,3 +294,163 @@ def correlated_obs_keys(net):
             for ax in "ENH":
                 out.add(("coord", c[0], ax))
     return out
+
+
+# ---------------------------------------------------------------------------- reference checks on trace events
+
+def check_adjust_event(ck, ev, tag="net"):
+    """C01's defining equations evaluated with numpy on the system recorded by an `adjust` trace event.
+    Returns (list of (key, message), Reference or None)."""
+    P = event_problem(ev)
+    if P["A"].shape[0] == 0 or P["A"].shape[1] == 0:
+        return [], None
+    try:
+        ref = lsq.Reference(P)
+    except np.linalg.LinAlgError:
+        return [("%s:reference-failed" % tag, "covariance block of the event is not positive definite")], None
+    alg = ev["algorithm"]
+    bad = []
+    if not ref.ok:
+        ck.inconc("event system not admitted (rank ambiguous / scale)")
+        return bad, ref
+    x = np.array(ev["x"], dtype=float)
+    v = np.array(ev["r"], dtype=float)
+    if len(x) != ref.n or len(v) != ref.m:
+        return [("%s:%s:dims" % (tag, alg), "event vectors do not match the system")], ref
+    if ev["defect"] != ref.defect:
+        bad.append(("%s:%s:defect" % (tag, alg), "defect %d reported, n - rank = %d" % (ev["defect"], ref.defect)))
+    A, b = ref.A, ref.b
+    sc = float(np.max(np.abs(A) @ np.abs(x) + np.abs(b)))
+    e = float(np.max(np.abs(v - (A @ x - b))))
+    if ck.ratio("event v=Ax-b", e, ref.tol(sc, False)) > 1:
+        bad.append(("%s:%s:v=Ax-b" % (tag, alg), "max |v-(Ax-b)| = %.3g (scale %.3g)" % (e, sc)))
+    vw = ref.Aw @ x - ref.bw
+    g = ref.Aw.T @ vw
+    nA = np.linalg.norm(ref.Aw, 2)
+    scg = nA * (nA * np.linalg.norm(x) + np.linalg.norm(ref.bw)) + 1e-300
+    e = float(np.linalg.norm(g))
+    if ck.ratio("event A'Pv=0", e, ref.tol(scg)) > 1:
+        bad.append(("%s:%s:normal-equations" % (tag, alg), "|A'P(Ax-b)| = %.3g (scale %.3g, kappa %.3g)" % (e, scg, ref.kappa)))
+    ssr = float(vw @ vw)
+    e = abs(ev["pvv"] - ssr)
+    if ck.ratio("event ss=v'Pv", e, ref.tol(max(ssr, float(ref.bw @ ref.bw) * 1e-6, 1e-12))) > 1:
+        bad.append(("%s:%s:sum-of-squares" % (tag, alg), "reported %.12g, v'Pv = %.12g" % (ev["pvv"], ssr)))
+    if ref.defect:
+        if not ref.subset_ok:
+            bad.append(("%s:%s:subset-does-not-resolve-defect" % (tag, alg),
+                        "an adjustment was computed although the constrained subset does not resolve the defect %d" % ref.defect))
+        else:
+            t = ref.Gs.T @ x
+            scx = max(np.linalg.norm(x), np.linalg.norm(ref.xp), 1e-12)
+            e = float(np.linalg.norm(t))
+            if ck.ratio("event minnorm", e, ref.tol(scx) * 10) > 1:
+                bad.append(("%s:%s:min-norm" % (tag, alg), "corrections of the constrained coordinates are not orthogonal "
+                            "to the datum transformations: |Gs'x| = %.3g, |x - x_ref| = %.3g" % (
+                                e, float(np.linalg.norm(x - ref.x)))))
+    return bad, ref
+
+
+# ---------------------------------------------------------------------------- shared network workloads
+
+def gen_mixed(seed, i, salt, noise=True):
+    """a generated network with a random mix of features (deterministic in (seed, i, salt))"""
+    rng = np.random.default_rng([seed, i, salt])
+    dim = int(rng.choice([1, 2, 2, 3, 3]))
+    feats = [f for f, p in (("angles", 0.5), ("azimuths", 0.3), ("cov", 0.4)) if rng.uniform() < p]
+    if dim == 3:
+        feats += [f for f, p in (("vectors", 0.3), ("hdiff", 0.4), ("dh-heights", 0.3)) if rng.uniform() < p]
+    if dim >= 2 and rng.uniform() < 0.25:
+        feats.append("coords")
+    net = netgen.gen_net(rng, dim=dim, noise=noise, features=tuple(feats))
+    return rng, net, feats
+
+
+def solver_events_workload(ck, tier, seed, n_quick, n_thorough, salt=111):
+    """C01 at the local-network entry point: every `adjust` event of gama-local runs on generated networks
+    (x 4 algorithms) is checked against the defining equations."""
+    n = n_thorough if tier == "thorough" else n_quick
+    fr = netgen.Frame()
+    jobs = []
+    for i in range(n):
+        rng, net, feats = gen_mixed(seed, i, salt)
+        txt = netgen.to_gkf(net, fr)
+        for alg in ALGS:
+            jobs.append((i, net, feats, alg, txt))
+
+    def work(job):
+        i, net, feats, alg, txt = job
+        return job, xmlout.run_gama_local(txt, ck.tmp, "ev%d-%s" % (i, alg), args=["--algorithm", alg], trace=True)
+
+    for (i, net, feats, alg, txt), g in runner.pmap(work, jobs):
+        wit = dict(seed=seed, index=i, alg=alg, kind=net.kind, features=feats, level="network")
+        if ck.sanitizer(g.rr, wit, prefix="gama-local:"):
+            continue
+        if g.rr.timeout:
+            ck.inconc("timeout")
+            continue
+        evs = adjust_events(g)
+        if not evs:
+            ck.inconc("no adjust event: " + outcome(g))
+            continue
+        for ev in evs:
+            bad, ref = check_adjust_event(ck, ev, tag="network")
+            for key, msg in bad:
+                ck.violation(key, msg + " [%s, case %d]" % (net.kind, i), dict(wit, input=txt if len(ck.violations) < 3 else None))
+            if ref is not None and ref.ok:
+                ck.case(("network", alg, "singular" if ref.defect else "regular",
+                         "cov" if "cov" in feats or "vectors" in feats or "coords" in feats else "diag", net.kind))
+        ck.count("adjust events checked", len(evs))
+
+
+def algorithms_agree(ck, tier, seed, salt=222):
+    """C02 at network level: the same gama-local input with --algorithm x4."""
+    n = 800 if tier == "thorough" else 40
+    fr = netgen.Frame()
+    items = []
+    for i in range(n):
+        rng, net, feats = gen_mixed(seed, i, salt)
+        # a share of the inputs with removed observations (blunders beyond tol-abs)
+        if i % 5 == 4:
+            obs = [o for _, o in net.all_obs() if o.kind in ("distance", "s-distance", "dh")]
+            if obs:
+                o = obs[int(rng.integers(len(obs)))]
+                o.val += 5.0
+                feats = feats + ["blunder"]
+        items.append((i, net, feats, netgen.to_gkf(net, fr)))
+
+    def work(it):
+        i, net, feats, txt = it
+        return it, run4(txt, ck.tmp, "ag%d" % i, trace=False)
+
+    for (i, net, feats, txt), runs in runner.pmap(work, items, jobs=max(1, runner.NCPU // 4)):
+        wit = dict(seed=seed, index=i, kind=net.kind, features=feats, level="network")
+        dead = False
+        for alg, g in runs.items():
+            if ck.sanitizer(g.rr, dict(wit, alg=alg), prefix="gama-local:%s:" % alg):
+                dead = True
+            elif g.rr.timeout:
+                ck.inconc("timeout")
+                dead = True
+        if dead:
+            continue
+        ocs = {alg: outcome(g) for alg, g in runs.items()}
+        ck.case(("network", net.kind, "+".join(sorted(feats)) or "plain", "adjusted" if ocs["envelope"] == "adjusted" else "refused"))
+        if len(set(ocs.values())) != 1:
+            ck.violation("network:outcome:%s" % "/".join(sorted(set(o.split(":")[0] for o in ocs.values()))),
+                         "algorithms disagree on the outcome: %s [%s, case %d]" % (ocs, net.kind, i), dict(wit, input=txt))
+            continue
+        if ocs["envelope"] != "adjusted":
+            continue
+        P = {alg: physical_result(g.xml, fr) for alg, g in runs.items()}
+        seen = set()
+        for a in range(4):
+            for b in range(a + 1, 4):
+                bad = compare_physical(P[ALGS[a]], P[ALGS[b]])
+                for key, msg, okey in bad:
+                    k = "network:%s:%s-vs-%s" % (key, ALGS[a], ALGS[b])
+                    if key in seen:
+                        continue
+                    seen.add(key)
+                    ck.violation(k, msg + " [%s, case %d]" % (net.kind, i), dict(wit, input=txt if len(ck.violations) < 3 else None))
+        if i < 2:
+            ck.sample(dict(level="network", index=i, kind=net.kind, features=feats))
